@@ -246,7 +246,7 @@ impl<'a> Ctx<'a> {
             let Some(&pid) = pids.first() else {
                 // never handed to a shell although nothing stopped the document: either a spawn
                 // failure at this position, or scrut dropped it
-                if !self.facts.spawn_failed.is_empty() {
+                if !self.facts.spawn_failed.is_empty() || self.facts.fault_kinds.iter().any(|k| k.starts_with("fs_error")) {
                     stop = Some(Stop::RunFail(i));
                     j.run_fail = true;
                     j.faulted = true;
@@ -396,7 +396,7 @@ impl<'a> Ctx<'a> {
         let Some(pid) = pid else {
             j.run_fail = true;
             j.stop = Some(Stop::RunFail(0));
-            j.faulted = !self.facts.spawn_failed.is_empty();
+            j.faulted = !self.facts.spawn_failed.is_empty() || self.facts.fault_kinds.iter().any(|k| k.starts_with("fs_error"));
             for tj in j.tests.iter_mut() {
                 tj.allowed = Allowed::NotSuccess;
                 tj.class = "passed-though-never-run";
